@@ -48,3 +48,20 @@ Theorem C07_server_finish_shape : skel_tunnelServerStream_finishStream =
   ["call finishErr.CompareAndSwap"; "call finishErr.Load"; "call cancel"; "call svr.removeStream"; "call halfClose"; "call writeMu.Lock"; "defer call writeMu.Unlock"; "set sentHeaders"; "set headers"; "go func"; "set sentHeaders"; "set headers"; "set closed"; "set trailers"].
 Proof. exact tunnelServerStream_finishStream_shape. Qed.
 Print Assumptions C07_server_finish_shape.
+
+(* ---- one RPC end to end (Rpc.v), every interleaving of cancellation, completion and late frames ---- *)
+From GT Require Import Rpc RpcProofs RpcSystem.
+Theorem C07_rpc_outcome_write_once : forall strict ls s s', rrun strict s ls = Some s' ->
+  (forall c, k_done (r_k s) = Some c -> k_done (r_k s') = Some c) /\
+  (forall c, v_fin (r_v s) = Some c -> v_fin (r_v s') = Some c).
+Proof. exact rpc_outcome_write_once. Qed.
+Print Assumptions C07_rpc_outcome_write_once.
+(* frames that arrive for the finished RPC are discarded: neither loop ever ends the tunnel *)
+Theorem C07_rpc_late_frames_harmless : forall strict ls s, rrun strict r_init ls = Some s ->
+  k_err (r_k s) = false /\ v_err (r_v s) = false.
+Proof. exact rpc_tunnel_survives. Qed.
+Print Assumptions C07_rpc_late_frames_harmless.
+(* the cancel frame is sent at most once, and only by a cancelStream that won *)
+Theorem C07_rpc_cancel_frame_once : forall strict ls s, rrun strict r_init ls = Some s -> gc_run (h_c s) <> GcBad.
+Proof. exact rpc_client_frames_conform. Qed.
+Print Assumptions C07_rpc_cancel_frame_once.
